@@ -62,8 +62,8 @@ def _r151_152(ctx: Ctx) -> None:
                 continue
             if n.func.attr == 'sum':
                 summed = cols
-            elif n.func.attr == 'first':
-                first = cols
+            elif n.func.attr in ('first', 'nth', 'head', 'tail', 'last'):
+                first = cols                      # one row / value per group (how it is indexed: see `aligned` below)
             elif n.func.attr in ('aggregate', 'agg') and n.args:
                 a = n.args[0]
                 if isinstance(a, ast.Lambda) and 'concatenate' in ast.unparse(a):
@@ -93,6 +93,75 @@ def _r151_152(ctx: Ctx) -> None:
            set(first) <= {'code', 'error_model', 'decoder', 'method'},
            f'first() of {first}: per-trial or additive data would be dropped for all but one file',
            key='Analysis.aggregate|first', facts=first)
+    # the per-group frames are put side by side: every one of them must be indexed by the group key (sum, first, agg
+    # ...), so that pandas aligns them group by group.  nth / head / tail are filters: their rows keep their own index and
+    # the order of the input rows, and after reset_index(drop=True) they are glued on BY POSITION, i.e. in file order
+    # next to aggregates that are in sorted key order.
+    KEYED = {'sum', 'first', 'last', 'aggregate', 'agg', 'min', 'max', 'mean', 'count', 'size', 'median'}
+    FILTERS = {'nth', 'head', 'tail', 'cumsum', 'cumcount', 'shift', 'transform'}
+    defs = {}
+    for n in ast.walk(fn):
+        if isinstance(n, ast.Assign) and len(n.targets) == 1 and isinstance(n.targets[0], ast.Name):
+            defs.setdefault(n.targets[0].id, []).append(n.value)
+
+    def is_grouped(e):
+        while isinstance(e, ast.Subscript):
+            e = e.value
+        if isinstance(e, ast.Name) and len(defs.get(e.id, [])) == 1:
+            return any(isinstance(c, ast.Call) and isinstance(c.func, ast.Attribute) and c.func.attr == 'groupby'
+                       for c in ast.walk(defs[e.id][0]))
+        return isinstance(e, ast.Call) and isinstance(e.func, ast.Attribute) and e.func.attr == 'groupby'
+
+    def frame_kind(e, depth=0):
+        """'keyed' (indexed by the group key) | 'sorted' (row numbers, rows in sorted key order) | ('input', why) (rows in
+        the order of the input rows) | ('clash', why) | None (not recognised)"""
+        if depth > 6:
+            return None
+        if isinstance(e, ast.Name) and len(defs.get(e.id, [])) == 1:
+            return frame_kind(defs[e.id][0], depth + 1)
+        if isinstance(e, ast.Call) and isinstance(e.func, ast.Attribute):
+            a = e.func.attr
+            if is_grouped(e.func.value):
+                if a in KEYED:
+                    return 'keyed'
+                if a in FILTERS:
+                    return ('input', f'{norm_stmt(e, 90)} is a filter: its rows keep their own index and the order of the '
+                                     f'input rows')
+                return None
+            if a == 'reset_index':
+                inner = frame_kind(e.func.value, depth + 1)
+                return 'sorted' if inner == 'keyed' else inner
+            if ast.unparse(e.func) in ('pd.concat', 'pandas.concat') and e.args and isinstance(e.args[0], (ast.List, ast.Tuple)):
+                kinds = [frame_kind(x, depth + 1) for x in e.args[0].elts]
+                if any(k is None for k in kinds):
+                    return None
+                clash = [k for k in kinds if isinstance(k, tuple) and k[0] == 'clash']
+                if clash:
+                    return clash[0]
+                inp = [k for k in kinds if isinstance(k, tuple) and k[0] == 'input']
+                if inp and len(inp) < len(kinds):
+                    return ('clash', inp[0][1])
+                if inp:
+                    return inp[0]
+                if set(kinds) == {'keyed'}:
+                    return 'keyed'
+                if set(kinds) == {'sorted'}:
+                    return 'sorted'
+                return None              # key-indexed next to row-numbered frames: pandas takes the union of the indexes
+        return None
+    cc = [n for n in ast.walk(fn) if isinstance(n, ast.Call) and ast.unparse(n.func) in ('pd.concat', 'pandas.concat')
+          and any(k.arg == 'axis' and isinstance(k.value, ast.Constant) and k.value.value == 1 for k in n.keywords)]
+    ctx.need(cc, 'R15.1', site, 'aggregate: side-by-side pd.concat(axis=1) of the per-group frames not found')
+    outer = [c for c in cc if not any(c is not d and c in list(ast.walk(d)) for d in cc)]
+    for c in outer:
+        kind = frame_kind(c)
+        if kind is None:
+            raise AnalysisError('R15.1', site_of(ami, c), f'aggregate: {norm_stmt(c, 100)}: how the frames are indexed is not recognised')
+        ctx.ob('R15.1', site_of(ami, c), 'aggregate: the per-group frames put side by side are all indexed by the group key',
+               kind in ('keyed', 'sorted') or kind[0] == 'input', '' if not (isinstance(kind, tuple) and kind[0] == 'clash') else
+               f'{kind[1]}; put next to frames in sorted group-key order it attaches the identity columns (code, hence d, n, k) '
+               f'to the counts of another group unless the input rows happen to be sorted',
+               key='Analysis.aggregate|aligned')
     # n_trials = len(effective_error) per entry (reader)
     mi2, re_fn = m.func('panqec.analysis', 'read_entry')
     # interpreted on a record whose n_runs counter disagrees with the number of recorded trials (an interrupted run):
@@ -335,9 +404,15 @@ def _frame_formulas(ctx: Ctx) -> None:
     if n_sym is None or s_sym is None:
         ok, detail = _vocab_verdict(st['n_fail'], {'n_trials', 'success'}, {'sum'})
         if ok is None:
+            ok, detail = _rowwise_count(m, st['n_fail'], res)
+        if ok is None:
             raise AnalysisError('R15.3', site_of(ami, fn), f"n_fail = {st['n_fail']!r}: form not recognised")
-        ctx.ob('R15.3', site_of(ami, fn), 'n_fail = n_trials - sum(success)', False,
-               f"n_fail = {st['n_fail']!r}: {detail}", key='Analysis.aggregate|n_fail', facts=repr(st['n_fail']))
+        if ok:
+            ctx.ob('R15.3', site_of(ami, fn), 'n_fail = n_trials - sum(success)', True, '', key='Analysis.aggregate|n_fail',
+                   facts=repr(st['n_fail']))
+        if not ok:
+            ctx.ob('R15.3', site_of(ami, fn), 'n_fail = n_trials - sum(success)', False,
+                   f"n_fail = {st['n_fail']!r}: {detail}", key='Analysis.aggregate|n_fail', facts=repr(st['n_fail']))
     else:
         todo.append((A.add(lhs, f'{n_sym} - {s_sym}', sorted(syms.values())), site_of(ami, fn),
                      'n_fail = n_trials - sum(success)', 'Analysis.aggregate|n_fail', repr(st['n_fail'])))
@@ -447,6 +522,54 @@ def _frame_formulas(ctx: Ctx) -> None:
         if ok is None:
             raise AnalysisError('R15.3', site, f'{what}: {detail}')
         ctx.ob('R15.3', site, what, ok, f'code computes {src}; {detail}', key=key, facts={'expr': src, 'how': detail})
+
+
+def _rowwise_count(m, t, res):
+    """n_fail written as a per-row function of the recorded arrays: results[[...]].apply(lambda row: ..., axis=1) or
+    results[col].apply(lambda a: ...).  A function built only from elementwise boolean operators, sums/counts, len and
+    +/- is linear in the numbers of trials of each kind (success; failed inside the code space; failed outside it -
+    success implies codespace), so three independent mixes and the empty one determine it.  (True, '') if it counts
+    exactly the failed trials, (False, why) if it counts something else, (None, '') if it is not of that form."""
+    fn = getattr(t, 'fn', None)
+    if not (isinstance(t, CT) and t.op == 'apply' and isinstance(fn, Closure) and isinstance(fn.fn, ast.Lambda)):
+        return None, ''
+    src = t.args[0]
+    if isinstance(src, CT) and src.op == 'cols' and src.args[0] is res and getattr(t, 'kw', {}).get('axis') == 1:
+        cols = list(src.args[1])
+    elif isinstance(src, CT) and src.op == 'col' and src.args[0] is res:
+        cols = None
+    else:
+        return None, ''
+    if not (cols is None or set(cols) <= {'success', 'codespace'}):
+        return None, ''
+    allowed_calls = {'int', 'sum', 'len', 'np.sum', 'np.count_nonzero', 'numpy.sum', 'numpy.count_nonzero', 'np.logical_and',
+                     'np.logical_or', 'np.logical_not', 'np.invert'}
+    for n in ast.walk(fn.fn.body):
+        if isinstance(n, ast.Call):
+            if ast.unparse(n.func) not in allowed_calls or n.keywords:
+                return None, ''
+        elif not isinstance(n, (ast.Subscript, ast.Name, ast.Constant, ast.Attribute, ast.UnaryOp, ast.BinOp, ast.Invert, ast.Not,
+                                ast.BitAnd, ast.BitOr, ast.BitXor, ast.Add, ast.Sub, ast.Load)):
+            return None, ''
+    from .c03 import SymHooks
+    for a, b, c in ((2, 3, 5), (7, 1, 4), (1, 6, 2), (0, 0, 0)):
+        succ = np.array([True] * a + [False] * (b + c), dtype=bool)
+        cs = np.array([True] * (a + b) + [False] * c, dtype=bool)
+        arg = {'success': succ, 'codespace': cs}
+        arg = {k_: arg[k_] for k_ in cols} if cols is not None else arg[src.args[1]]
+        it = Interp(m, SymHooks())
+        try:
+            outs = it.explore(lambda: it.call(fn, [arg], {}, fn.fn, fn.env))
+        except Exception:
+            return None, ''
+        if len(outs) != 1 or outs[0].kind != 'return' or not isinstance(outs[0].value, (int, np.integer)):
+            return None, ''
+        got = int(outs[0].value)
+        if got != b + c:
+            return False, (f'on a row with {a} successful trials, {b} failed inside the code space and {c} failed outside it, '
+                           f'the function gives {got}; n_trials - sum(success) is {b + c} (the estimator p_est = 1 - mean(success) '
+                           f'and the standard errors count every trial that is not a success)')
+    return True, ''
 
 
 def _vocab_verdict(t, cols: set, funcs: set):
@@ -725,12 +848,14 @@ def _r156(ctx: Ctx) -> None:
     # read_entry on nested (merged) lists
     rmi, rfn = m.func('panqec.analysis', 'read_entry')
 
-    def rec(i, n):
+    def rec(i, n, ee=(0, 1), success=True, codespace=True):
         return {'inputs': {'code': {'name': 'C', 'i': i}, 'error_rate': 0.1 * i},
-                'results': {'effective_error': [[0, 1]] * n, 'success': [True] * n, 'codespace': [True] * n,
+                'results': {'effective_error': [list(ee)] * n, 'success': [success] * n, 'codespace': [codespace] * n,
                             'n_runs': n, 'wall_time': 1.0}}
-    # a merged file of merged files: lists nested three deep next to plain records
-    data = [[[rec(1, 2)], rec(2, 3)], [[[rec(3, 1)]]], rec(4, 4)]
+    # a merged file of merged files: lists nested three deep next to plain records.  Whether a record is kept does not
+    # depend on what its trials recorded: chunks without a single logical error (the usual case far below threshold),
+    # chunks where every trial failed, chunks that left the code space with a trivial effective error
+    data = [[[rec(1, 2, (0, 0))], rec(2, 3)], [[[rec(3, 1, (1, 1), False)]]], rec(4, 4, (0, 0), False, False)]
     it = Interp(m, _HNp())
     outs = guard('R15.6', rmi, rfn)(lambda: it.explore(lambda: it.call_closure(Closure(rfn, rmi), [data], {'results_file': 'F'}, rfn)))
     bad = None
